@@ -13,7 +13,7 @@ from .. import graph_hist as H
 from .. import histprops as HP
 
 LEVEL = 'proof'
-NEEDS = ['Base', 'Names', 'Graph', 'GraphObs', 'GraphTS', 'GraphInv', 'Matrix', 'Skeleton', 'SkeletonProofs', 'Closed', 'CorrMatrix']
+NEEDS = ['SubGraph', 'SubGraphProofs', 'SkeletonDict', 'Base', 'Names', 'Graph', 'GraphObs', 'GraphTS', 'GraphInv', 'Matrix', 'Skeleton', 'SkeletonProofs', 'Closed', 'CorrMatrix']
 MEMBERS_SEEN = set()
 
 
